@@ -39,16 +39,19 @@ CONSTANTS
 \* END-CONSTANTS
 
 Ranks == 0..3
+\* "worldx" / "rowx" are SECOND HANDLES (another new_group result) over the
+\* ranks of "world" / "row": a handle is not a group -- the bucket, and the
+\* reduction, belong to the set of ranks
 GroupOf(r, role) ==
-    CASE role = "world" -> {0, 1, 2, 3}
-      [] role = "row"   -> IF r \in {0, 1} THEN {0, 1} ELSE {2, 3}
+    CASE role \in {"world", "worldx"} -> {0, 1, 2, 3}
+      [] role \in {"row", "rowx"} -> IF r \in {0, 1} THEN {0, 1} ELSE {2, 3}
       [] role = "col"   -> IF r \in {0, 2} THEN {0, 2} ELSE {1, 3}
       [] role = "self"  -> {r}
 
 Participates(r, c) ==
     \/ c.op = "flush"
     \/ c.inst = "both"
-    \/ c.g \in {"world", "self"}
+    \/ c.g \in {"world", "worldx", "self"}
     \/ (c.inst = "first" /\ 0 \in GroupOf(r, c.g))
     \/ (c.inst = "second" /\ 0 \notin GroupOf(r, c.g))
 
@@ -133,7 +136,7 @@ AddCall ==
     /\ Len(prog) < MaxCalls
     /\ \E op \in {"ar", "arb"} : \E ty \in DOMAIN Types : \E g \in Roles :
        \E sym \in BOOLEAN : \E inst \in Insts :
-          /\ (g \in {"world", "self"}) => inst = "both"
+          /\ (g \in {"world", "worldx", "self"}) => inst = "both"
           \* `average` does not influence bucketing: alternate it by position
           /\ prog' = Append(prog, [op |-> op, id |-> NextId, ty |-> ty, g |-> g,
                                    avg |-> (NextId % 2 = 1), sym |-> sym,
